@@ -187,7 +187,10 @@ def eval_pairs(suite: Suite, pairs, tag: str, jobs=16):
 
     def one(kp):
         k, path = kp
-        rc, out, err = _coqc(path)
+        try:
+            rc, out, err = _coqc(path)
+        except subprocess.TimeoutExpired:
+            raise RuntimeError(f"coqc timed out on {path} (model or checker evaluation did not finish)")
         if rc != 0:
             raise RuntimeError(f"coqc failed on {path}:\n{err[-2000:]}")
         flat = " ".join(out.split())
